@@ -64,6 +64,7 @@ type M struct {
 	revoked     map[string]bool
 	staleSecret map[string]bool
 	spent       map[string]bool // stored credential hashes that have been removed from storage
+	usedRec     map[string]bool // pid|recovery code that has completed a login (the harness' own record, not storage's)
 	lastAct  map[string]time.Time
 	lastActU map[string]string
 	Last    *world.Result
@@ -142,7 +143,7 @@ func New(cfg world.Cfg, out *wire.Out) (*M, error) {
 	}
 	m := &M{W: w, Cfg: cfg, Out: out, sha: map[string]string{}, bc: map[string]string{}, Secrets: map[string]string{},
 		used: map[string]int{}, issuedN: map[string]int{}, smsIssue: map[string]int{},
-		smsOrigin: map[string]string{}, cookieOwner: map[string]string{}, revoked: map[string]bool{}, staleSecret: map[string]bool{}, spent: map[string]bool{}}
+		smsOrigin: map[string]string{}, cookieOwner: map[string]string{}, revoked: map[string]bool{}, staleSecret: map[string]bool{}, spent: map[string]bool{}, usedRec: map[string]bool{}}
 	out.Add(CfgLine(cfg), "cfg-ok")
 	return m, nil
 }
